@@ -182,6 +182,11 @@ func runC06(ctx *Ctx, idx int) {
 		ks = KeySet{"uniform-52k", sortUniq(k)}
 	case idx-1 < len(dir) && idx >= 1:
 		ks = dir[idx-1]
+	case idx-1-len(dir) >= 0 && idx-1-len(dir) < 2 && ctx.BuildMode != "race" && ctx.BuildMode != "asan":
+		// more than 1 MiB of stored key text (leaf tails, inner prefixes) in a
+		// 0.5.10/0.5.11 stream: position bitmaps of ten thousand words and more,
+		// whose select index the old writers kept in another unit than today's
+		ks = genMegabyte(r, 1+(idx-1-len(dir)))
 	default:
 		ks = genKeySet(r, scale)
 	}
